@@ -1,4 +1,5 @@
 import IofloModel.Lemmas.Pid
+import IofloModel.Lemmas.PidTyped
 import IofloModel.Props.C43
 /-!
 # C46 — PID controller output and integrator stay within configured limits
@@ -322,5 +323,110 @@ theorem C46_never_raises_binary64 (s : State) (ops : List Op) : ∃ s', run floa
     | update st i r sp p =>
       obtain ⟨s1, h1⟩ := action_total floatArith float_doubling s st i r sp p
       simp only [run, step, h1]; exact ih _
+
+
+
+/-! ## arguments of any numeric type (int, bool, Fraction, float): the typed model -/
+
+/-- typed model: every evaluated `action()` leaves output and error sum within ordered limits,
+whatever the Python types of inputs, gains and limits (exact Fraction arithmetic included) -/
+theorem C46_typed_within_limits (s s' : StateT) (st : Option TNum) (i r sp : TNum) (p : ParmT)
+    (hev : evaluatedT s st = true) (h : actionT s st i r sp p = .ok s') :
+    (le p.ovmin.v p.ovmax.v = true → within p.ovmin.v p.ovmax.v s'.out.v = true) ∧
+    (le p.esmin.v p.esmax.v = true → within p.esmin.v p.esmax.v s'.es.v = true) := by
+  obtain ⟨es1, out1, hes, hout⟩ := actionT_eval s st i r sp p s' hev h
+  rw [hes, hout]
+  exact ⟨clampT_within _ _ _, clampT_within _ _ _⟩
+
+def limitsOfT (p : ParmT) : Limits := ⟨p.esmin.v, p.esmax.v, p.ovmin.v, p.ovmax.v⟩
+def Limits.holdsT (L : Limits) (s : StateT) : Bool :=
+  within L.esmin L.esmax s.es.v && within L.ovmin L.ovmax s.out.v
+
+def opUnderT (L : Limits) : OpT → Prop
+  | .update _ _ _ _ p => limitsOfT p = L
+  | .restart => True
+
+theorem stepT_keeps (L : Limits) (s s' : StateT) (op : OpT) (hord : L.ordered = true)
+    (hop : opUnderT L op) (hz : within L.esmin L.esmax zero = true)
+    (hs : L.holdsT s = true) (h : stepT s op = .ok s') : L.holdsT s' = true := by
+  simp only [Limits.ordered, Bool.and_eq_true] at hord
+  simp only [Limits.holdsT, Bool.and_eq_true] at hs ⊢
+  cases op with
+  | restart =>
+    simp only [stepT] at h; injection h with h; subst h
+    exact ⟨hz, hs.2⟩
+  | update st i r sp p =>
+    simp only [opUnderT] at hop
+    subst hop
+    simp only [stepT] at h
+    by_cases hev : evaluatedT s st = true
+    · have := C46_typed_within_limits s s' st i r sp p hev h
+      exact ⟨this.2 hord.1, this.1 hord.2⟩
+    · simp only [Bool.not_eq_true] at hev
+      obtain ⟨s'', h2, hes, hout, _⟩ := actionT_skip s st i r sp p hev
+      rw [h] at h2; injection h2 with h2; subst h2
+      simp only [limitsOfT] at hs ⊢
+      rw [hes, hout]; exact hs
+
+/-- typed model, every history from creation: always within limits that contain zero -/
+theorem C46_typed_limits_always_partial (L : Limits) (hord : L.ordered = true) (H : L.zeroInside = true) :
+    ∀ (ops : List OpT) (s s' : StateT), (∀ op ∈ ops, opUnderT L op) → L.holdsT s = true →
+      runT s ops = .ok s' → L.holdsT s' = true
+  | [], s, s', _, hs, h => by
+    simp only [runT] at h; injection h with h; subst h; exact hs
+  | op :: ops, s, s', hop, hs, h => by
+    simp only [runT] at h
+    split at h
+    · cases h
+    · next s1 h1 =>
+      have hz : within L.esmin L.esmax zero = true := by
+        simp only [Limits.zeroInside, Bool.and_eq_true] at H; exact H.1
+      have hs1 := stepT_keeps L s s1 op hord (hop op (by simp)) hz hs h1
+      exact C46_typed_limits_always_partial L hord H ops s1 s' (fun o ho => hop o (by simp [ho])) hs1 h
+
+/-- **exactness**: with no wrapping configured (`wrap` equal to zero in any type) and neither the
+input nor the set point a float, the error share holds their exact difference — no conversion
+to float happens (a Fraction like 1/3 survives) -/
+theorem C46_typed_error_exact (s s' : StateT) (st : Option TNum) (i r sp : TNum) (p : ParmT)
+    (hev : evaluatedT s st = true) (hw : p.wrap.v = zero)
+    (h : actionT s st i r sp p = .ok s') :
+    ∃ rspEff : TNum, (rspEff = sp ∨ rspEff = s.prsp) ∧ s'.prsp = rspEff ∧ s'.e = TNum.sub i rspEff ∧
+      (i.isFloat = false → rspEff.isFloat = false → s'.e.v = xsub i.v rspEff.v) := by
+  unfold evaluatedT at hev
+  simp only [Bool.not_eq_true'] at hev
+  have hprsp : (updateLapseT s st).prsp = s.prsp := by
+    unfold updateLapseT; cases s.stamp <;> cases st <;> rfl
+  unfold actionT at h
+  simp only [hev, Bool.false_eq_true, if_false] at h
+  have hne : Num.ne p.wrap.v zero = false := by rw [hw]; decide
+  simp only [wrap2T, hne, Bool.false_eq_true, if_false] at h
+  split at h
+  · cases h
+  · split at h
+    · cases h
+    · split at h
+      · cases h
+      · split at h
+        · cases h
+        · injection h with h
+          subst h
+          refine ⟨_, ?_, rfl, rfl, ?_⟩
+          · rw [hprsp]; split <;> simp
+          · intro h1 h2
+            revert h2
+            simp only []
+            split <;> intro h2 <;> simp [TNum.sub, TNum.arith, h1, h2]
+
+
+/-- non-vacuity: Fraction input 1/3 and set point 1/10, wrap 0 (an int): the error share holds the
+exact Fraction 7/30, and the output is clamped -/
+example :
+    (match actionT { initT with stamp := some ⟨.fin 0, .int⟩ } (some ⟨.fin 1, .int⟩)
+        ⟨.fin (1 / 3), .frac⟩ ⟨.fin 0, .float⟩ ⟨.fin (1 / 10), .frac⟩
+        ⟨⟨.fin 0, .int⟩, ⟨.fin (1 / 100), .frac⟩, true, ⟨.fin 1, .int⟩, ⟨.fin 0, .int⟩, ⟨.fin 300, .int⟩,
+          ⟨.fin 0, .int⟩, ⟨.fin 0, .int⟩, ⟨.fin 5, .int⟩, ⟨.fin (-5), .int⟩, ⟨.fin 20, .int⟩, ⟨.fin (-20), .int⟩⟩ with
+      | .ok s => decide (s.e.v = .fin (7 / 30)) && decide (s.e.k = .frac) && decide (s.out.v = .fin 20) &&
+          decide (s.prsp.v = .fin (1 / 10))
+      | .error _ => false) = true := by decide +kernel
 
 end Ioflo.Pid
